@@ -311,6 +311,14 @@ func (b Builder) Defer(kind DoAction, fn Expr, buildCall func(Builder, Expr, ...
 	}
 	id := b.Prog.Val(b.Func.nextDeferID)
 	b.Func.nextDeferID++
+	if kind == DeferAlways && len(self.stmts) > 0 && uintptr(self.nextBit) < unsafe.Sizeof(uintptr(0))*8 {
+		// Only the defer statement that creates the frame is certain to have
+		// run whenever the frame is unwound. A later "always" statement is
+		// skipped when a panic is raised before it is reached, so it must be
+		// guarded by a bit like a conditional one; otherwise it would be
+		// replayed (and pop a foreign argument node) without ever having run.
+		kind = DeferInCond
+	}
 	switch kind {
 	case DeferInCond:
 		prog = b.Prog
